@@ -164,6 +164,19 @@ func c05GenSeq(r *verifh.Rng) []verifh.Section {
 		secs = append(secs, verifh.Section{Cfg: fmt.Sprintf("kind=tlimit mode=seq n=%d", n),
 			Ops: c5.SeqOps(r, n, r.Range(10, 40), true, ret)})
 	}
+	// capacity 0: every request is beyond the cap — refused (TryBorrow), timed out (TimeoutLimit.Borrow), Return is an
+	// over-return; a blocking Limit.Borrow would block for ever and is left out
+	for _, kind := range []string{"limit", "tlimit"} {
+		var ops []string
+		for j := 0; j < 12; j++ {
+			o := r.PickS("try", "try", "return", "probe")
+			if kind == "tlimit" && r.Chance(1, 4) {
+				o = "borrow"
+			}
+			ops = append(ops, o)
+		}
+		secs = append(secs, verifh.Section{Cfg: fmt.Sprintf("kind=%s mode=seq n=0", kind), Ops: append(ops, "probe")})
+	}
 	// TimeoutLimit with parked borrowers: `bwait` parks when the limit is full, a later `return` has to wake one
 	for i := 0; i < verifh.Scale(10, 150); i++ {
 		n := r.Pick(1, 1, 2, 3, r.Range(1, 5))
@@ -243,7 +256,12 @@ func c05GenSeq(r *verifh.Rng) []verifh.Section {
 			for _, ops := range c05Enumerate([]string{"try", "borrow", "return", "probe"}, 5) {
 				secs = append(secs, verifh.Section{Cfg: fmt.Sprintf("kind=tlimit mode=seq n=%d", n), Ops: ops})
 			}
-			for _, ops := range c05Enumerate([]string{"get", "getw", "getdpanic", "put @0", "put @1", "t+ 11", "t+ 5"}, 5) {
+			for _, ops := range c05Enumerate([]string{"get", "getw", "put @0", "put @1", "t+ 11", "t+ 5"}, 4) {
+				secs = append(secs, verifh.Section{Cfg: fmt.Sprintf("kind=pool mode=seq n=%d maxage=10 breach=0", n),
+					Ops: append(append([]string(nil), ops...), "stat")})
+			}
+			// … and with a panicking destroy callback in the alphabet, one op shorter
+			for _, ops := range c05Enumerate([]string{"get", "getdpanic", "put @0", "put @1", "t+ 11", "t+ 5"}, 4) {
 				secs = append(secs, verifh.Section{Cfg: fmt.Sprintf("kind=pool mode=seq n=%d maxage=10 breach=0", n),
 					Ops: append(append([]string(nil), ops...), "stat")})
 			}
@@ -256,7 +274,7 @@ func c05GenSeq(r *verifh.Rng) []verifh.Section {
 // binary sleeps one second at exit, which made shrinking a failing sequential input slow)
 func c05GenConc(r *verifh.Rng) []verifh.Section {
 	var secs []verifh.Section
-	for i := 0; i < verifh.Scale(4, 100); i++ {
+	for i := 0; i < verifh.Scale(4, 50); i++ {
 		n := r.Pick(1, 2, 3, r.Range(1, 8))
 		g := r.Pick(n+1, 2*n+1, r.Range(2, 16))
 		secs = append(secs, verifh.Section{Cfg: fmt.Sprintf("kind=limit mode=conc n=%d", n), Ops: []string{
@@ -265,7 +283,7 @@ func c05GenConc(r *verifh.Rng) []verifh.Section {
 			fmt.Sprintf("run g=%d iters=%d try=%d pan=%d exits=se rs=%d", g, r.Range(10, 40), 50, 20, r.Intn(1<<30)),
 		}})
 	}
-	for i := 0; i < verifh.Scale(4, 60); i++ {
+	for i := 0; i < verifh.Scale(4, 40); i++ {
 		n := r.Pick(1, 2, r.Range(1, 6))
 		g := r.Pick(n+1, 2*n+2, r.Range(2, 12))
 		secs = append(secs, verifh.Section{Cfg: fmt.Sprintf("kind=tlimit mode=conc n=%d", n), Ops: []string{
@@ -280,7 +298,7 @@ func c05GenConc(r *verifh.Rng) []verifh.Section {
 			fmt.Sprintf("run g=%d iters=%d pan=100 exits=%s rs=%d", r.Range(2, 6), r.Range(5, 30), r.PickS("seg", "g", "se"), r.Intn(1<<30)),
 		}})
 	}
-	for i := 0; i < verifh.Scale(5, 100); i++ {
+	for i := 0; i < verifh.Scale(5, 50); i++ {
 		n := r.Pick(1, 2, 3, r.Range(1, 6))
 		g := r.Pick(n+1, 2*n+1, r.Range(2, 12))
 		secs = append(secs, verifh.Section{Cfg: fmt.Sprintf("kind=pool mode=conc n=%d maxage=%d", n, r.Pick(0, 50, 200)), Ops: []string{
